@@ -169,6 +169,21 @@ def gen(rng, tier):
         variants.append(bytes(b))
         for v in variants:
             out.append(Case("pmt.read %s %d" % (hx(v), pid), kind="fid-stream", decides=False, nontrivial=False))
+    # ---- fidelity: a unit interrupted by a new payload_unit_start (the accumulator restarts), two PMTs in a row,
+    #      a continuation packet before the first start (the reader gives up: ErrNoPayloadUnitStartIndicator)
+    pairs = list(zip(carriers, payloads))
+    for i in range(0, min(len(pairs) - 1, nf), 2):
+        (c1, p1), (c2, p2) = pairs[i], pairs[i + 1]
+        pid = 481
+        it1 = L.items_for(rng, p1, L.rand_cuts(rng, len(p1), set(c1["inner_ends"]), "random"), pid, tail_other=False)
+        it2 = L.items_for(rng, p2, L.rand_cuts(rng, len(p2), set(c2["inner_ends"])), pid)
+        r = vlib.run_model([L.stream_line(pid, it1, "ser.pkts"), L.stream_line(pid, it2, "ser.pkts")])
+        k1 = [vlib.unhx(x) for x in r[0].strip("[]").split()]
+        k2 = [vlib.unhx(x) for x in r[1].strip("[]").split()]
+        cutat = rng.randrange(1, len(k1)) if len(k1) > 1 else 1
+        out.append(Case("pmt.read %s %d" % (hx(b"".join(k1[:cutat] + k2)), pid), kind="fid-restart", decides=False, nontrivial=False))
+        out.append(Case("pmt.read %s %d" % (hx(b"".join(k1 + k2)), pid), kind="fid-two-units", decides=False, nontrivial=False))
+        out.append(Case("pmt.read %s %d" % (hx(b"".join(k1[1:] + k2)), pid), kind="fid-join-midway", decides=False, nontrivial=False))
     return out
 
 
